@@ -39,6 +39,7 @@ class Policy:
     p_options_repeat: float = 0.0
     p_split_graph: float = 0.0     # GRAPHS: close and reopen the same graph
     p_empty_graph: float = 0.0     # GRAPHS: graph_start / graph_end blocks without any triple
+    p_implicit_empty_prefix: float = 0.8   # IRI without a prefix at the very start: prefix id 0 and NO entry for ""
     frame_cut: str = "random"      # random | one | each | fixed
     frame_size: int = 5
 
@@ -231,7 +232,7 @@ class Producer:
             pid = 0
             if self.lp != 0:
                 raise ProducerError("prefix table disabled but lp != 0")
-        elif pre == "" and self.lp == 0 and self.rng.random() < 0.8:
+        elif pre == "" and self.lp == 0 and self.rng.random() < self.pol.p_implicit_empty_prefix:
             pid = 0                                # empty prefix, nothing selected so far
             self.used["empty-prefix-implicit"] += 1
         else:
